@@ -7,7 +7,7 @@ func init() {
 			"Nucleotide: JC, K2P, F81, F84, TN93, GTR; kappa, kappa1, kappa2 in [0.05,50], six GTR rates in [0.02,50] (log-uniform, the ends and 1 over-represented), base frequencies on the simplex with every component >= 0.01; about half of the draws are tied on purpose (equal frequencies, equal purines/pyrimidines, three equal, one at the floor; kappa1=kappa2, kappa1=kappa2=1; all rates equal, transitions/transversions, two rates tied). " +
 			"Protein: the seven matrices with model frequencies, user frequencies all equal, or drawn user frequencies (every component >= 0.002). Corners: every model at the corners of its domain (all 3^6 GTR rate vectors over {0.02,1,50} x six frequency vectors, t in {1e-8,1e-3,0.1,1,10,100}), enumerated. " +
 			"Oracle: the textbook rate matrix of the model written in the harness (proteins: exported exchangeabilities x pi_j), scaled to -sum pi_i q_ii = 1, exponentiated by a scaling-and-squaring Taylor series of the harness; on models.NewPij(model,t).Pij(i,j), and on one Pij object re-used through SetLength: entries in [0,1], rows summing to 1, P(0)=I, P(s)P(u)=P(s+u), pi_i P_ij = pi_j P_ji, equality with exp(Qt), all within 1e-8 absolute; P(100) within 1e-8 of pi whenever the oracle's own exp(100 Q) is within 1e-9 of it; for JC and K2P the analytical value equals R exp(Dt) L assembled by the harness from Eigens(). " +
-			"Re-initialisation: one model object (every nucleotide model; a Pij built before InitModel where the constructor sets default parameters: JC, K2P, F84), InitModel(A), all clauses and Eigens()/NewPij used, two Pij objects kept alive, InitModel(B) on the same object (B: everything redrawn, or only the rates, or only the frequencies): all clauses must hold for B, the Pij objects created before must give exp(Q_B t) once moved to another length by SetLength (their matrix at the unchanged length is not judged: the API keeps it), InitModel(A) again must reproduce the first matrices within 1e-12. Protein models: the same on one ProtModel object with model/user frequencies (every repeated InitModel under a 20 s watchdog: before the repair 31adb09 it could loop for ever). A deterministic sub-test re-runs the minimal reproduction of that repaired finding (LG, InitModel(nil) twice). " +
+			"Default-constructed models (JC; K2P with its documented default kappa = 1; F84 with the kappa = 1 and equal frequencies its constructor sets) are judged without any InitModel, in the corner enumeration and as round 0 of the re-initialisation histories. Re-initialisation: one model object (every nucleotide model; a Pij built before InitModel where the constructor sets default parameters: JC, K2P, F84), InitModel(A), all clauses and Eigens()/NewPij used, two Pij objects kept alive, InitModel(B) on the same object (B: everything redrawn, or only the rates, or only the frequencies): all clauses must hold for B, the Pij objects created before must give exp(Q_B t) once moved to another length by SetLength (their matrix at the unchanged length is not judged: the API keeps it), InitModel(A) again must reproduce the first matrices within 1e-12. Protein models: the same on one ProtModel object with model/user frequencies (every repeated InitModel under a 20 s watchdog: before the repair 31adb09 it could loop for ever). Between the valid calls a ProtModel is also given a frequency vector of the wrong length (0, 1, 19, 21 or 40 entries): the call must return an error and the model must remain one consistent model (Pi() equal to the frequencies in use before, or to the published ones, and every clause holding for that same parameter set). A deterministic sub-test re-runs the minimal reproduction of that repaired finding (LG, InitModel(nil) twice). " +
 			"Non-trivial: parameters away from the Jukes-Cantor point (a rate ratio beyond 1.5 or a frequency below 0.15; every protein matrix); distinct = distinct JSON form of the case",
 		Assumptions: []string{
 			"the published frequency vectors of Dayhoff, JTT, LG, WAG, HIVb and AB sum to 1 only to 1e-6..1e-9; 'one expected substitution per unit time' is accepted with the mean rate taken over the vector as published (PAML convention) or over its normalised form (counted as ambiguous_accepted)",
@@ -15,6 +15,7 @@ func init() {
 			"the exchangeabilities and model frequencies of the protein models are read from the exported *Mats() functions (data shared with the code under test; their symmetry is checked, their values are not)",
 			"convergence is judged at t = 100 only, and only for parameter vectors whose exact chain has converged there to 1e-9 (the others are counted in the class not-converged-at-100)",
 			"re-initialisation is taken from the pinned TestK2PPij (Pij built first, InitModel called again for every kappa): a model object is a container of parameters that InitModel replaces; a Pij object whose model was re-initialised is only required to follow the new parameters after SetLength to another length (model.go recomputes only when the length changes)",
+			"the constructor defaults of F84 are not documented in a comment; they are read from the literal values in NewF84Model (K2P documents 'Default 1.0'); F81, TN93, GTR and the protein models are not usable before InitModel and are not judged in that state",
 			"absence of violations is established on the explored parameter vectors and branch lengths only; tolerance 1e-8 absolute for every clause",
 		},
 		LevelText: "Generated-input search against a reference model: ~60 000 (quick) to ~3.2 million (thorough) parameter vectors x 4 branch lengths (a sixth of them as histories of one model object initialised three times), the transition matrices compared entry by entry with an independent matrix exponential of the textbook rate matrix and checked for the Markov, semigroup and reversibility laws; the corners of the parameter domain are enumerated. Shows absence of violations on what was explored.",
